@@ -1,6 +1,6 @@
 (* Properties_C14.v — C14: ray casting visits a connected, in-bounds chain of cells covering the segment. *)
 From Coq Require Import Reals ZArith List Bool Arith Lia Lra.
-From Romea Require Import Num NumR GridMapModel GridMapProofs RayCastModel RayCastProofs RayCastMerge RayCastSegment RayCastAssembly.
+From Romea Require Import Num NumR GridMapModel GridMapProofs RayCastModel RayCastProofs RayCastMerge RayCastSegment RayCastAssembly RayCastBounds.
 Import ListNotations.
 
 (* The walk of cast(), over exact arithmetic, for a 2D or 3D caster whose per-axis steps point from the origin
@@ -159,9 +159,141 @@ Theorem C14_cast_3d_end_to_end : forall (r lo0 hi0 lo1 hi1 lo2 hi2 o0 o1 o2 e0 e
 Proof. exact cast3_all. Qed.
 Print Assumptions C14_cast_3d_end_to_end.
 
+(* ---- the "no-overflow bound B" premise removed (RayCastBounds.v) ----
+   The premise  tmax_i + |delta index|_i * tdelta_i <= B < max()  of the theorems above bounds the parameter stored AFTER the last
+   step of an axis (where the ray leaves the END cell); next() never compares that value, and it is not bounded by the geometry
+   (it exceeds r * rho / |e_i - o_i|).  The parameters next() does compare belong to axes that have not reached the end index, and the
+   ghost-parameter invariant gives them <= rho.  Proving walk and geometry together needs only  rho < max(). *)
+
+(* generic caster: all six conclusions from the per-axis premises, the invariant at T = 0 and rho < max() *)
+Theorem C14_cast_walk_and_segment_without_bound : forall d, (d = 2 \/ d = 3) ->
+  forall (r rho : R) (org o dirv : list R) (eidx step : list Z) (tdelta : list R),
+  (0 < r)%R -> (rho < M)%R -> length eidx = d -> length step = d -> length tdelta = d ->
+  (forall i, i < d -> (0 <= nth i tdelta 0)%R) ->
+  (forall i, i < d -> (lo r org i (nth i eidx 0%Z) <= pos o dirv i rho <= hi r org i (nth i eidx 0%Z))%R) ->
+  (forall i, i < d ->
+     (nth i step 0%Z = 1%Z /\ (0 < nth i dirv 0)%R /\ (nth i tdelta 0 * nth i dirv 0 = r)%R) \/
+     (nth i step 0%Z = (-1)%Z /\ (nth i dirv 0 < 0)%R /\ (nth i tdelta 0 * nth i dirv 0 = - r)%R) \/
+     (nth i step 0%Z = 0%Z /\ nth i dirv 0%R = 0%R)) ->
+  forall c : caster (T:=R),
+  length (rc_oidx c) = d -> length (rc_tmax c) = d -> rc_eidx c = eidx -> rc_step c = step -> rc_tdelta c = tdelta ->
+  (forall i, i < d -> (nth i eidx 0 - nth i (rc_oidx c) 0 = nth i step 0 * Z.abs (nth i eidx 0 - nth i (rc_oidx c) 0))%Z) ->
+  ginv d r rho org o dirv eidx step 0%R (rc_oidx c, rc_tmax c) ->
+  (Z.of_nat (length (cast_cells ROps c)) = RayCastProofs.sumf d (fun i => Z.abs (nth i (rc_eidx c) 0 - nth i (rc_oidx c) 0)%Z) + 1)%Z /\
+  hd [] (cast_cells ROps c) = rc_oidx c /\
+  last (cast_cells ROps c) [] = rc_eidx c /\
+  chain d (rc_oidx c) (tl (cast_cells ROps c)) /\
+  Forall (fun cl => forall i, i < d ->
+            (Z.min (nth i (rc_oidx c) 0) (nth i (rc_eidx c) 0) <= nth i cl 0 <= Z.max (nth i (rc_oidx c) 0) (nth i (rc_eidx c) 0))%Z)
+         (cast_cells ROps c) /\
+  Forall (meets d r rho org o dirv) (cast_cells ROps c).
+Proof. exact cast_walk_geo. Qed.
+Print Assumptions C14_cast_walk_and_segment_without_bound.
+
+(* END TO END without the bound: the only numeric premise is |e - o| < numeric_limits::max() *)
+Theorem C14_cast_2d_end_to_end_without_bound : forall (r lo0 hi0 lo1 hi1 o0 o1 e0 e1 : R),
+  (0 < r)%R -> (lo0 <= o0 <= hi0)%R -> (lo1 <= o1 <= hi1)%R -> (lo0 <= e0 <= hi0)%R -> (lo1 <= e1 <= hi1)%R ->
+  (o0 <> e0 \/ o1 <> e1) -> (rho2 o0 o1 e0 e1 < M)%R ->
+  let c := caster2 r lo0 hi0 lo1 hi1 o0 o1 e0 e1 in
+  let cells := cast_cells ROps c in
+  let l1 := RayCastProofs.sumf 2 (fun i => Z.abs (nth i (rc_eidx c) 0 - nth i (rc_oidx c) 0)%Z) in
+  (Z.of_nat (length cells) = l1 + 1)%Z /\
+  hd [] cells = rc_oidx c /\ last cells [] = rc_eidx c /\ chain 2 (rc_oidx c) (tl cells) /\
+  Forall (fun cl => forall i, i < 2 ->
+            (Z.min (nth i (rc_oidx c) 0) (nth i (rc_eidx c) 0) <= nth i cl 0 <= Z.max (nth i (rc_oidx c) 0) (nth i (rc_eidx c) 0))%Z) cells /\
+  Forall (meets 2 r (rho2 o0 o1 e0 e1) (org2 r lo0 lo1) [o0; o1] (dirv2 o0 o1 e0 e1)) cells.
+Proof. exact cast2_free. Qed.
+
+Theorem C14_cast_3d_end_to_end_without_bound : forall (r lo0 hi0 lo1 hi1 lo2 hi2 o0 o1 o2 e0 e1 e2 : R),
+  (0 < r)%R -> (lo0 <= o0 <= hi0)%R -> (lo1 <= o1 <= hi1)%R -> (lo2 <= o2 <= hi2)%R ->
+  (lo0 <= e0 <= hi0)%R -> (lo1 <= e1 <= hi1)%R -> (lo2 <= e2 <= hi2)%R ->
+  (o0 <> e0 \/ o1 <> e1 \/ o2 <> e2) -> (rho3 o0 o1 o2 e0 e1 e2 < M)%R ->
+  let c := caster3 r lo0 hi0 lo1 hi1 lo2 hi2 o0 o1 o2 e0 e1 e2 in
+  let cells := cast_cells ROps c in
+  let l1 := RayCastProofs.sumf 3 (fun i => Z.abs (nth i (rc_eidx c) 0 - nth i (rc_oidx c) 0)%Z) in
+  (Z.of_nat (length cells) = l1 + 1)%Z /\
+  hd [] cells = rc_oidx c /\ last cells [] = rc_eidx c /\ chain 3 (rc_oidx c) (tl cells) /\
+  Forall (fun cl => forall i, i < 3 ->
+            (Z.min (nth i (rc_oidx c) 0) (nth i (rc_eidx c) 0) <= nth i cl 0 <= Z.max (nth i (rc_oidx c) 0) (nth i (rc_eidx c) 0))%Z) cells /\
+  Forall (meets 3 r (rho3 o0 o1 o2 e0 e1 e2) (org3 r lo0 lo1 lo2) [o0; o1; o2] (dirv3 o0 o1 o2 e0 e1 e2)) cells.
+Proof. exact cast3_free. Qed.
+Print Assumptions C14_cast_3d_end_to_end_without_bound.
+
+(* the property's envelope (at most 2000 cells of resolution <= 1 per axis, so an extent of side <= 2000): NO numeric premise left *)
+Theorem C14_cast_2d_end_to_end_envelope : forall (r lo0 hi0 lo1 hi1 o0 o1 e0 e1 : R),
+  (0 < r)%R -> (lo0 <= o0 <= hi0)%R -> (lo1 <= o1 <= hi1)%R -> (lo0 <= e0 <= hi0)%R -> (lo1 <= e1 <= hi1)%R ->
+  (o0 <> e0 \/ o1 <> e1) -> (hi0 - lo0 <= 2000)%R -> (hi1 - lo1 <= 2000)%R ->
+  let c := caster2 r lo0 hi0 lo1 hi1 o0 o1 e0 e1 in
+  let cells := cast_cells ROps c in
+  let l1 := RayCastProofs.sumf 2 (fun i => Z.abs (nth i (rc_eidx c) 0 - nth i (rc_oidx c) 0)%Z) in
+  (Z.of_nat (length cells) = l1 + 1)%Z /\
+  hd [] cells = rc_oidx c /\ last cells [] = rc_eidx c /\ chain 2 (rc_oidx c) (tl cells) /\
+  Forall (fun cl => forall i, i < 2 ->
+            (Z.min (nth i (rc_oidx c) 0) (nth i (rc_eidx c) 0) <= nth i cl 0 <= Z.max (nth i (rc_oidx c) 0) (nth i (rc_eidx c) 0))%Z) cells /\
+  Forall (meets 2 r (rho2 o0 o1 e0 e1) (org2 r lo0 lo1) [o0; o1] (dirv2 o0 o1 e0 e1)) cells.
+Proof. exact cast2_box. Qed.
+
+Theorem C14_cast_3d_end_to_end_envelope : forall (r lo0 hi0 lo1 hi1 lo2 hi2 o0 o1 o2 e0 e1 e2 : R),
+  (0 < r)%R -> (lo0 <= o0 <= hi0)%R -> (lo1 <= o1 <= hi1)%R -> (lo2 <= o2 <= hi2)%R ->
+  (lo0 <= e0 <= hi0)%R -> (lo1 <= e1 <= hi1)%R -> (lo2 <= e2 <= hi2)%R ->
+  (o0 <> e0 \/ o1 <> e1 \/ o2 <> e2) -> (hi0 - lo0 <= 2000)%R -> (hi1 - lo1 <= 2000)%R -> (hi2 - lo2 <= 2000)%R ->
+  let c := caster3 r lo0 hi0 lo1 hi1 lo2 hi2 o0 o1 o2 e0 e1 e2 in
+  let cells := cast_cells ROps c in
+  let l1 := RayCastProofs.sumf 3 (fun i => Z.abs (nth i (rc_eidx c) 0 - nth i (rc_oidx c) 0)%Z) in
+  (Z.of_nat (length cells) = l1 + 1)%Z /\
+  hd [] cells = rc_oidx c /\ last cells [] = rc_eidx c /\ chain 3 (rc_oidx c) (tl cells) /\
+  Forall (fun cl => forall i, i < 3 ->
+            (Z.min (nth i (rc_oidx c) 0) (nth i (rc_eidx c) 0) <= nth i cl 0 <= Z.max (nth i (rc_oidx c) 0) (nth i (rc_eidx c) 0))%Z) cells /\
+  Forall (meets 3 r (rho3 o0 o1 o2 e0 e1 e2) (org3 r lo0 lo1 lo2) [o0; o1; o2] (dirv3 o0 o1 o2 e0 e1 e2)) cells.
+Proof. exact cast3_box. Qed.
+Print Assumptions C14_cast_3d_end_to_end_envelope.
+
+(* ---- the integer side.  C++: indexes are size_t, computeRayNumberOfCells casts them to int and sums |difference| in int, next()
+   adds an int step (+-1) to a size_t index.  If the grid has n_i cells on axis i and sum n_i <= 2^31 - 1, every index visited by the
+   model's (unbounded Z) walk lies in [0, n_i) and below 2^31, every partial sum of the count is in [0, 2^31 - 2], and the count
+   is in [1, 2^31 - 1] and equals the number of cells returned: no cast, sum or modular step of the C++ can differ from the model. *)
+Theorem C14_indexes_and_count_fit_int : forall (d : nat) (oidx eidx : list Z) (nc : nat -> Z) (cells : list (list Z)),
+  (forall i, i < d -> (0 <= nth i oidx 0 < nc i)%Z) ->
+  (forall i, i < d -> (0 <= nth i eidx 0 < nc i)%Z) ->
+  (RayCastProofs.sumf d nc <= 2147483647)%Z ->
+  Forall (fun cl => forall i, i < d ->
+            (Z.min (nth i oidx 0) (nth i eidx 0) <= nth i cl 0 <= Z.max (nth i oidx 0) (nth i eidx 0))%Z) cells ->
+  Forall (fun cl => forall i, i < d -> (0 <= nth i cl 0 < nc i)%Z /\ (nth i cl 0 <= 2147483647)%Z) cells /\
+  (forall m, m <= d ->
+     (0 <= RayCastProofs.sumf m (fun i => Z.abs (nth i eidx 0 - nth i oidx 0)) <= 2147483647 - 1)%Z) /\
+  (1 <= RayCastProofs.sumf d (fun i => Z.abs (nth i eidx 0 - nth i oidx 0)) + 1 <= 2147483647)%Z.
+Proof. exact cast_indexes_fit_int. Qed.
+
+Theorem C14_cast_2d_indexes_fit : forall (r lo0 hi0 lo1 hi1 o0 o1 e0 e1 : R),
+  (0 < r)%R -> (lo0 <= o0 <= hi0)%R -> (lo1 <= o1 <= hi1)%R -> (lo0 <= e0 <= hi0)%R -> (lo1 <= e1 <= hi1)%R ->
+  (o0 <> e0 \/ o1 <> e1) -> (rho2 o0 o1 e0 e1 < M)%R ->
+  (gm_ncells ROps r lo0 hi0 + gm_ncells ROps r lo1 hi1 <= 2147483647)%Z ->
+  let c := caster2 r lo0 hi0 lo1 hi1 o0 o1 e0 e1 in
+  Forall (fun cl => forall i, i < 2 -> (0 <= nth i cl 0 < nc2 r lo0 hi0 lo1 hi1 i)%Z /\ (nth i cl 0 <= 2147483647)%Z)
+         (cast_cells ROps c) /\
+  (forall m, m <= 2 ->
+     (0 <= RayCastProofs.sumf m (fun i => Z.abs (nth i (rc_eidx c) 0 - nth i (rc_oidx c) 0)) <= 2147483647 - 1)%Z) /\
+  ncells c = Z.of_nat (length (cast_cells ROps c)) /\ (1 <= ncells c <= 2147483647)%Z.
+Proof. exact cast2_int. Qed.
+
+Theorem C14_cast_3d_indexes_fit : forall (r lo0 hi0 lo1 hi1 lo2 hi2 o0 o1 o2 e0 e1 e2 : R),
+  (0 < r)%R -> (lo0 <= o0 <= hi0)%R -> (lo1 <= o1 <= hi1)%R -> (lo2 <= o2 <= hi2)%R ->
+  (lo0 <= e0 <= hi0)%R -> (lo1 <= e1 <= hi1)%R -> (lo2 <= e2 <= hi2)%R ->
+  (o0 <> e0 \/ o1 <> e1 \/ o2 <> e2) -> (rho3 o0 o1 o2 e0 e1 e2 < M)%R ->
+  (gm_ncells ROps r lo0 hi0 + gm_ncells ROps r lo1 hi1 + gm_ncells ROps r lo2 hi2 <= 2147483647)%Z ->
+  let c := caster3 r lo0 hi0 lo1 hi1 lo2 hi2 o0 o1 o2 e0 e1 e2 in
+  Forall (fun cl => forall i, i < 3 -> (0 <= nth i cl 0 < nc3 r lo0 hi0 lo1 hi1 lo2 hi2 i)%Z /\ (nth i cl 0 <= 2147483647)%Z)
+         (cast_cells ROps c) /\
+  (forall m, m <= 3 ->
+     (0 <= RayCastProofs.sumf m (fun i => Z.abs (nth i (rc_eidx c) 0 - nth i (rc_oidx c) 0)) <= 2147483647 - 1)%Z) /\
+  ncells c = Z.of_nat (length (cast_cells ROps c)) /\ (1 <= ncells c <= 2147483647)%Z.
+Proof. exact cast3_int. Qed.
+Print Assumptions C14_cast_3d_indexes_fit.
+
 (* What stays outside the theorems: floating-point rounding (the walk of the float instance is observed, and the budget
-   rule makes C14_cast_walk independent of the values of the crossing parameters), the no-overflow bound B, the
-   coincident case o = e (one cell, no step; trivial in the model: ncells = 1), and casts on a caster whose crossing
+   rule makes C14_cast_walk independent of the values of the crossing parameters; the parameter stored after the last
+   step of an axis is never compared, see above),
+   the coincident case o = e (one cell, no step; trivial in the model: ncells = 1), and casts on a caster whose crossing
    parameters were advanced by an earlier cast() (operation K, outside the property). *)
 
 (* non-vacuity: a 2D caster on a 3-cell axis pair, origin cell (0,0), end cell (2,1) *)
@@ -177,4 +309,24 @@ Proof.
   - intros [|[|i]] Hi; cbn; try lia.
   - intros [|[|i]] Hi Hp; cbn in *; try lra; try lia.
   - split; [|exact E]. apply Nat2Z.inj. rewrite L. reflexivity.
+Qed.
+
+(* non-vacuity of the bound-free end-to-end theorem: 3 x 3 grid of resolution 1 over [0,3]^2, from (1/2, 1/2) to (5/2, 3/2) *)
+Example C14_ex_without_bound :
+  let c := caster2 1 0 3 0 3 (1/2) (1/2) (5/2) (3/2) in
+  last (cast_cells ROps c) [] = rc_eidx c /\ Forall (fun cl => forall i, i < 2 -> (nth i cl 0 <= 2147483647)%Z) (cast_cells ROps c).
+Proof.
+  intros c.
+  destruct (C14_cast_2d_end_to_end_envelope 1 0 3 0 3 (1/2) (1/2) (5/2) (3/2)) as (_ & _ & E & _); try lra.
+  split; [exact E|].
+  assert (HM : (rho2 (1/2) (1/2) (5/2) (3/2) < M)%R).
+  { pose proof (rho2_le 0 3 0 3 (1/2) (1/2) (5/2) (3/2) 3). pose proof M_big. lra. }
+  assert (Hn : (gm_ncells ROps 1%R 0%R 3%R + gm_ncells ROps 1%R 0%R 3%R <= 2147483647)%Z).
+  { assert (gm_ncells ROps 1%R 0%R 3%R = 4%Z) as ->; [|lia].
+    unfold gm_ncells. cbn [ntruncZ nadd nsub nceil nfloor ndiv n_one ROps].
+    replace (3 / 1)%R with 3%R by lra. replace (0 / 1)%R with 0%R by lra.
+    rewrite Raux.Zceil_IZR, Raux.Zfloor_IZR. replace (3 - 0 + 1)%R with 4%R by lra.
+    apply Raux.Ztrunc_IZR. }
+  destruct (C14_cast_2d_indexes_fit 1 0 3 0 3 (1/2) (1/2) (5/2) (3/2)) as (F & _); try lra; try assumption.
+  eapply Forall_impl; [|exact F]. cbn. intros cl H i Hi. apply (H i Hi).
 Qed.
